@@ -684,6 +684,9 @@ func (bp *boundProver) nonNeg(v ssa.Value, at *ssa.BasicBlock, depth int, seen m
 	if bp.lowerFromConds(v, at, 0, depth, seen) {
 		return true
 	}
+	if _, ok := bp.searchPos(v); ok {
+		return true // the position a binary search returned
+	}
 	if seen[v] {
 		return false
 	}
@@ -750,6 +753,12 @@ func (bp *boundProver) nonNeg(v ssa.Value, at *ssa.BasicBlock, depth int, seen m
 			if k, ok := constInt(x.Y); ok {
 				if k <= 0 {
 					return bp.nonNeg(x.X, at, depth+1, seen)
+				}
+				// len(s) - k where s is known to have at least k elements there
+				if lc, ok := stripConvert(x.X).(*ssa.Call); ok {
+					if bi, isB := lc.Common().Value.(*ssa.Builtin); isB && bi.Name() == "len" && bp.lenLB(lc.Common().Args[0], at, 0, map[ssa.Value]bool{}) >= k {
+						return true
+					}
 				}
 				return bp.lowerFromConds(x.X, at, k, depth, seen) || bp.lowerConst(x.X, at, k, depth+1, seen)
 			}
